@@ -256,6 +256,7 @@ def OP(f, *args):
 
 
 class Gen:
+  EMPTY_LISTS = True    # an empty list literal leaves its element type open (C05 switches it off)
   """One program. `mask` is a set of enabled features."""
 
   ALL = {'disj', 'named', 'arith', 'cmp', 'assign', 'in', 'lists', 'records', 'ite', 'functional',
@@ -420,7 +421,7 @@ class Gen:
       else:
         v = self.fresh('i')
         if rng.random() < 0.5 or not ints:
-          conj.append({'in': [V(v), L([rng.choice(INT_DOM) for _ in range(rng.choice([0, 1, 2, 2, 3]))])]})
+          conj.append({'in': [V(v), L([rng.choice(INT_DOM) for _ in range(rng.choice([0, 1, 2, 2, 3] if Gen.EMPTY_LISTS else [1, 2, 2, 3]))])]})
         else:
           conj.append({'in': [V(v), OP('Range', V(rng.choice(ints)))]})
         env[v] = 'int'
@@ -465,9 +466,11 @@ class Gen:
         # nested negation: the inner one uses an outer (depth-0) variable and a variable of the outer negation
         q2 = rng.choice(avail)
         inner_args = []
-        nvars = [a[1]['var'] for a in nargs if 'var' in a[1] and a[1]['var'].startswith('n')]
+        qtypes = dict(zip(q.cols, q.types))
+        ntype = {a[1]['var']: qtypes[a[0]] for a in nargs if 'var' in a[1] and a[1]['var'].startswith('n')}
         for c, t in zip(q2.cols, q2.types):
           same = [v for v, vt in env.items() if vt == t and v in ints + strs]
+          nvars = sorted(v for v, vt in ntype.items() if vt == t)     # only variables of the same type
           r2 = rng.random()
           if same and r2 < 0.5:
             inner_args.append([c, V(rng.choice(same))])
@@ -609,7 +612,7 @@ class Gen:
     rng = self.rng
     r = rng.random()
     if r < 0.6 or depth <= 0:
-      return {'list': [self.expr('int', depth) for _ in range(rng.randint(0, 3))]}
+      return {'list': [self.expr('int', depth) for _ in range(rng.randint(0 if Gen.EMPTY_LISTS else 1, 3))]}
     if r < 0.8:
       return OP('Range', OP('%', self.expr('int', depth - 1), L(4)))
     return OP('ArrayConcat', self.list_expr(depth - 1), self.list_expr(depth - 1))
